@@ -846,7 +846,17 @@ def _run_minimize(desc, ctx):
     for k in ("maxfun", "maxiter", "seed"):
         if desc.get(k) is not None:
             kw[k] = desc[k]
+    if "maxfun" in kw:
+        kw["maxfun"] = {"np.int64": np.int64, "float": float}.get(desc.get("maxfun_type"), int)(kw["maxfun"])
     bounds = ctx.bounds.copy() if desc.get("bounds_as", "array") == "array" else [tuple(b) for b in desc["box"]["bounds"]]
+    if desc.get("first_box"):
+        # the same callable object was minimised over a different box before (a user re-using one function)
+        fb = np.array(desc["first_box"]["bounds"], dtype=np.float64)
+        with activate(None):
+            minimize(fun, fb, maxfun=60, seed=1)
+        ctx.log_base = len(ctx.log)
+        ctx.scoped_total = len(ctx.log)
+        ctx.cov["minimize_after_same_callable_on_another_box"] += 1
     ctx.result = minimize(fun, bounds, **kw)
 
 
@@ -903,6 +913,59 @@ def run_reuse_pair(desc: dict, make_monitors, second_seed_offset=7):
 
             def second():
                 cfg2 = TreeConfig(cfg.levels, cfg.gsc, cfg.sprout_mechanism, options=opts, config_class_to_deme_class=cfg.config_class_to_deme_class)
+                tree = DemeTree(cfg2)
+                ctx2.emit("tree_ready", tree)
+                tree.run()
+                ctx2.emit("run_end", tree)
+
+            _guarded(ctx2, second)
+    return ctx1, ctx2
+
+
+def run_retarget_pair(desc: dict, make_monitors):
+    """The 're-target a used configuration' idiom: a tree is built and run from some level configs; the configs are then
+    deep-copied, their `.problem` is re-assigned to a problem over *another box*, and a second tree is built from the
+    copies.  Only the second tree is monitored (against the new box).  Returns (ctx1, ctx2)."""
+    import copy
+
+    ctx1 = Ctx(desc, [])
+    scramble_rng(desc.get("np_seed", 0))
+    holder = {}
+    with warnings.catch_warnings(record=True):
+        warnings.simplefilter("always")
+        with activate(ctx1):
+
+            def first():
+                holder["cfg"] = build_config(desc, ctx1)
+                DemeTree(holder["cfg"]).run()
+
+            _guarded(ctx1, first)
+        d2 = dict(desc)
+        d2["box"] = desc["second_box"]
+        d2["np_seed"] = (desc.get("np_seed", 0) * 17 + 3) % (2**31 - 1)
+        ctx2 = Ctx(d2, make_monitors())
+        if "cfg" not in holder or ctx1.aborted:
+            ctx2.aborted = ("skipped", "first tree of the pair did not complete")
+            return ctx1, ctx2
+        cfg = holder["cfg"]
+        scramble_rng(d2["np_seed"])
+        with activate(None):
+            levels2 = copy.deepcopy(cfg.levels)
+        with activate(ctx2):
+
+            def second():
+                ctx2.stacks = []
+                shared = None
+                for li, lv in enumerate(levels2):
+                    if d2.get("shared"):
+                        if shared is None:
+                            shared = build_stack(ctx2, -1, d2["levels"][li]["stack"])
+                        problem, objs = shared
+                    else:
+                        problem, objs = build_stack(ctx2, li, d2["levels"][li]["stack"])
+                    lv.problem = problem  # the re-assignment
+                    ctx2.stacks.append(objs)
+                cfg2 = TreeConfig(levels2, build_gsc(d2["gsc"], ctx2), build_sprout(d2["sprout"]), options=dict(d2.get("options", {})), config_class_to_deme_class=cfg.config_class_to_deme_class)
                 tree = DemeTree(cfg2)
                 ctx2.emit("tree_ready", tree)
                 tree.run()
